@@ -114,6 +114,19 @@ def origin(K, expr, frame, depth=0):
                     outs += [('elem',) + o for o in origin(K, n.iter, frame, depth + 1)]
         if not outs or name not in fn.all_params:
             if not any(o[0] == 'elem' for o in outs):
+                # a local that is assigned exactly once as a plain copy of another collection (x = y / x = list(y) / sorted(y) ...) stands for it
+                if not isinstance(fn.node, ast.Lambda) and name not in fn.all_params:
+                    asg = [n for n in walk_local(fn.node) if isinstance(n, (ast.Assign, ast.AnnAssign, ast.AugAssign))
+                           and any(_binds(t, name) for t in (n.targets if isinstance(n, ast.Assign) else [n.target]))]
+                    muts = [n for n in walk_local(fn.node) if isinstance(n, ast.Call) and isinstance(n.func, ast.Attribute) and isinstance(n.func.value, ast.Name)
+                            and n.func.value.id == name and n.func.attr in ('append', 'add', 'extend', 'update', 'insert')]
+                    if len(asg) == 1 and not muts and isinstance(asg[0], ast.Assign) and isinstance(asg[0].targets[0], ast.Name):
+                        v = asg[0].value
+                        if isinstance(v, ast.Name) and v.id != name:
+                            return origin(K, v, frame, depth + 1)
+                        if isinstance(v, ast.Call) and isinstance(v.func, ast.Name) and v.func.id in ('list', 'set', 'sorted', 'tuple', 'frozenset') and len(v.args) == 1 \
+                                and isinstance(v.args[0], ast.Name) and v.args[0].id != name:
+                            return origin(K, v.args[0], frame, depth + 1)
                 outs.append(('name', frame, name))
         return outs
     if isinstance(expr, ast.Call):
